@@ -80,6 +80,16 @@ class Oracle:
         if actor[0] == 'svc':
             self._pre_service(task, client, actor, op, path, node, owner)
         elif actor[0] == 'aux':
+            if actor[2] == 'reg_identity':
+                # a runtime registering under its own session: it creates its node, it never rewrites or removes a
+                # node another session holds
+                self._note('aux:%s:%s' % (actor[2], actor[1]), op, path, owner)
+                if op in ('set', 'delete', 'set_acls') and node is not None and owner not in (None, client.sid):
+                    self.report('aux-rewrites-foreign-node:reg_identity',
+                                'a runtime on %s registering an identity-less instance applies %s to %s, which session %#x owns' % (
+                                    actor[1], op, path, owner),
+                                dict(path=path, op=op, acting_for=actor[1], data=node.data.decode('latin1')))
+                return
             self._pre_aux(actor, op, path, node, owner)
 
     def _pre_service(self, task, client, actor, op, path, node, owner):
